@@ -14,8 +14,9 @@ for **every string `u = g.str` of the grammar class** `NormBridge.InClass ir g`
         [ "/" path ]  [ "?" query ]  [ "#" fragment ]
 
 * `g.wf` (decidable): the bare form does not itself start like a protocol; userinfo without
-  `/ ? # [ ]`; host without `/ ? # @ : [ ]`; port text without `/ ? # @ [ ]`; path empty or
-  absolute, without `? #`; query without `#`;
+  `/ ? # [ ]`; host without `/ ? # @ : [ ]`, or an IP literal `[h]` (`br`) with `h` free of
+  `/ ? # @ [ ]` and accepted by the model's `_check_bracketed_host`; port text without
+  `/ ? # @ [ ]`; path empty or absolute, without `? #`; query without `#`;
 * `Plain ir g.str`: the cleaning pass leaves the string alone (no control character, no white
   space at the ends, escapes in upper case — `Cleaned`) and, under `infer_redirection`, the string
   is not followed as a redirect (`infer u = u`; how redirect hints react to a respelling is
@@ -587,6 +588,18 @@ cleaned away before the grammar is asked -/
 example : InClassOf false { exG with path := "/%C3%A9".toList } " \x00https://www.a.com/%c3%a9?a=1\n".toList ∧
     InClassOf false { exG with path := "/%C3%A9".toList, ui := some "u".toList }
       "\thttps://u@www.a.com/%C3%a9?a=1 ".toList := by
+  decide +kernel
+
+/-- an IP literal as host: `https://[2001:DB8::1]/p?a=1`, with a userinfo, with `:443` -/
+def exG6 : UrlG := { exG with host := "2001:DB8::1".toList, br := true }
+
+example : exG6.str = "https://[2001:DB8::1]/p?a=1".toList ∧ InClass false exG6 ∧
+    InClass false { exG6 with port := some "443".toList } ∧
+    InClass false { exG6 with ui := some "u:p".toList } ∧
+    InClass false { exG6 with host := "2001:db8::1".toList } ∧
+    InClass false { exG6 with proto := .bare } ∧
+    parseUrl (ensureHttp ({ exG6 with ui := some "u:p".toList, port := some "443".toList } : UrlG).str) =
+      ({ exG6 with ui := some "u:p".toList, port := some "443".toList } : UrlG).parsed := by
   decide +kernel
 
 /-- the parser on a string of the grammar, evaluated: the bridging lemma says what this is for
